@@ -375,7 +375,7 @@ def run(ctx):
     rnd.shuffle(order)                                  # balance the shards
     il = [case_lines(jobs[i][0], jobs[i][1])[0] for i in order]
     ml = [case_lines(jobs[i][0], jobs[i][1])[1] for i in order]
-    env = {"ASAN_OPTIONS": "detect_leaks=0:abort_on_error=0:exitcode=99:allocator_may_return_null=1", "DBUS_FATAL_WARNINGS": "0"}
+    env = {"ASAN_OPTIONS": "detect_leaks=1:abort_on_error=0:exitcode=99:allocator_may_return_null=1", "DBUS_FATAL_WARNINGS": "0"}
     ires, icr = vlib.run_lines(info["oom_h"], il, env=env, shards=min(vlib.NPROC, max(1, len(il) // 3)))
     mres, mcr = vlib.run_lines(info["model_oom"], ml, shards=min(vlib.NPROC, max(1, len(ml) // 50)))
     for line, err in icr:
@@ -432,6 +432,9 @@ def run(ctx):
             if o["special"]:
                 stats["crash_points"] += n
             bad.append((n, o, why))
+        ml_ = re.search(r"lsan=(\d+)", I["end"])
+        if ml_ and int(ml_.group(1)) > 0 and not any(o["special"] for n, o in I["outs"]):
+            rep.violation("LeakSanitizer found unreachable memory after the buses of this case were torn down: %s" % il[pos][:300], dict(replay, impl=ir[:2000]))
         mm = re.search(r"allocs=(-?\d+)", I["end"])
         mn = re.search(r"n=(\d+)", M["end"])
         if mm and mn:
@@ -499,7 +502,7 @@ def run(ctx):
         "explanation": "PROVED (Coq, all states satisfying the invariant, all failure sets): atomicity and retry for the request classes listed in notes/C14.md (safe classes), all-or-nothing "
                        "delivery of staged messages for every request, refutation witnesses for the unsafe classes (F10a-c, F14.1). EXPLORED ONLY (harness): that the real allocator-level behaviour "
                        "matches the model's outcome sequence, 'leaks nothing' (_dbus_get_malloc_blocks_outstanding() == 0 after teardown + dbus_shutdown for every failing index, ASan for stale uses; "
-                       "LeakSanitizer is not usable in this sandbox), the library leg (message build/copy/edit, bus_match_rule_parse, bus_config_load under injection).",
+                       "plus one LeakSanitizer pass per case), the library leg (message build/copy/edit, bus_match_rule_parse, bus_config_load under injection).",
     })
     rep.assumptions += [
         "model allocation points are coarser than real allocations: correspondence is on the ordered sequence of distinct outcomes, not on indices",
@@ -577,7 +580,7 @@ def run_lib(ctx, rnd, stats):
     rep, info = ctx["rep"], ctx["info"]
     known = load_known()
     lines = lib_lines(rnd, ctx["tier"])
-    env = {"ASAN_OPTIONS": "detect_leaks=0:abort_on_error=0:exitcode=99:allocator_may_return_null=1", "DBUS_FATAL_WARNINGS": "0"}
+    env = {"ASAN_OPTIONS": "detect_leaks=1:abort_on_error=0:exitcode=99:allocator_may_return_null=1", "DBUS_FATAL_WARNINGS": "0"}
     res, crashes = vlib.run_lines(info["oom_h"], lines, env=env, shards=min(vlib.NPROC, max(1, len(lines) // 8)))
     for line, err in crashes:
         rep.violation("library operation crashed under an injected allocation failure: `%s`: %s" % (line[:200], err[-600:]), {"input": line, "stderr": err})
@@ -589,6 +592,8 @@ def run_lib(ctx, rnd, stats):
         op = line.split()[1]
         out["lib_cases"] += 1
         out["by_op"][op] = out["by_op"].get(op, 0) + 1
+        if re.search(r"lsan=[1-9]", r):
+            rep.violation("LeakSanitizer found unreachable memory after library operation `%s` under injection" % line[:200], {"input": line, "result": r[:2000]})
         segs = [x for x in r.split(" ## ") if not x.startswith("end")]
         ref = None
         parsed = []
